@@ -38,7 +38,8 @@ def nf(fn, *a):
     except (KeyboardInterrupt, SystemExit):
         raise
     except BaseException as e:           # IndexError, struct.error, ValueError, RecursionError, ...
-        return "Other:" + type(e).__name__, None
+        t = type(e)
+        return "Other:" + (t.__name__ if t.__module__ == "builtins" else t.__module__ + "." + t.__name__), None
     finally:
         sys.setrecursionlimit(old)
 
